@@ -69,19 +69,27 @@ def run_sender(sc):
 
         fires = [0]
 
-        def advance(t):
+        env_first = [False]
+
+        def advance(t, racy=False):
+            # racy (kind 'put!'): a timeout that expires at exactly t fires first, and the submission that follows is made as
+            # soon as the writer has left that wait — at its next preemption point, wherever that is — not when it is at rest
             while True:
                 w = q.waiter
-                if writer.state != 'dead' and w is not None and w['timeout'] is not None and not w['fired'] \
-                        and Fraction(w['start']) + Fraction(w['timeout']) < t and fires[0] < 6000:
+                dl = None if w is None or w['timeout'] is None else Fraction(w['start']) + Fraction(w['timeout'])
+                if writer.state != 'dead' and dl is not None and not w['fired'] \
+                        and (dl < t or (racy and dl == t)) and fires[0] < 6000:
                     # (a script is generated to produce at most ~2500 timeouts; far more means the interval in use is not the one
                     #  expected: firing stops and the model comparison reports the delay the model cannot accept)
                     fires[0] += 1
-                    dl = Fraction(w['start']) + Fraction(w['timeout'])
                     labels.append([sym('delay'), Q(dl - Fraction(clock.now))])
                     labels.append(sym('fire'))
                     clock.now = dl
                     w['fired'] = True
+                    if racy and dl == t:
+                        env_first[0] = True
+                        S.yield_('env', None, cond=lambda: writer.state == 'dead' or (writer.state == 'parked' and q.waiter is not w))
+                        break
                     S.yield_('env', None, cond=parked)
                 else:
                     break
@@ -91,10 +99,11 @@ def run_sender(sc):
         def body():
             S.yield_('env', None, cond=parked)
             for t, kind, arg in sc.events:
-                advance(Fraction(t))
-                if kind == 'put':
+                advance(Fraction(t), racy=(kind == 'put!'))
+                if kind in ('put', 'put!'):
                     labels.append([sym('put'), A(1), [sym('some'), arg.encode('utf-8')]])
                     snd.send(arg, False)
+                    env_first[0] = False
                 elif kind == 'setk':
                     labels.append([sym('setk'), Q(Fraction(arg))])
                     snd.change_keep_alive(arg)
@@ -114,7 +123,7 @@ def run_sender(sc):
 
         def chooser(en, sched):
             for t in en:
-                if t.role == 'writer':
+                if t.role == ('env' if env_first[0] else 'writer'):
                     return t
             return en[0]
         status = S.run(chooser, max_steps=200000)
@@ -151,7 +160,7 @@ def oracle(sc, writes):
     for t, k, a in sc.events:
         if k == 'stop':
             break
-        if k == 'put':
+        if k in ('put', 'put!'):
             puts.append(a)
     prev = Fraction(0)
     for (t, data) in writes:
@@ -203,9 +212,10 @@ def gen_script(rng):
         r = rng.random()
         if r < 0.65:
             burst = rng.choice([1, 1, 1, 2, 5])
-            for _ in range(burst):
+            racy = rng.random() < 0.35
+            for b in range(burst):
                 msgid += 1
-                ev.append((t, 'put', '%d|MSG|S|payload+%d' % (msgid, msgid)))
+                ev.append((t, 'put!' if racy and b == 0 else 'put', '%d|MSG|S|payload+%d' % (msgid, msgid)))
         elif r < 0.8:
             nk = rng.choice([0, -2, 0.5, 1, 1.5, 2.5, 10, 0.001])
             ev.append((t, 'setk', nk))
@@ -416,6 +426,8 @@ def run(ctx, res):
     scripts = [gen_script(rng) for _ in range(n)]
     # fixed corner cases
     scripts.append(Script(1, [(Fraction(1), 'put', 'a|X')], 5))                        # put exactly at the deadline
+    scripts.append(Script(1, [(Fraction(1), 'put!', 'a|X')], 5))                       # ... just after the timeout has fired
+    scripts.append(Script(1.5, [(Fraction(3), 'put!', 'a|X'), (Fraction(3), 'put', 'b|X')], 9))
     scripts.append(Script(1.5, [], 1500))                                                 # long idle: 1000 keepalives
     scripts.append(Script(0, [(Fraction(3), 'put', 'a|X')], 100))                         # disabled
     scripts.append(Script(10, [(Fraction(2), 'setk', 1), (Fraction(2), 'put', '1|MPI|V')], 12))
